@@ -921,3 +921,58 @@ func init() {
 		return Iface{}
 	})
 }
+
+// errors.Is without reflectlite: identity of comparable errors, then the Is and Unwrap
+// methods, as the standard library does.
+func (e *Engine) errorsIs(fr *frame, err, target Iface, depth int) *sym.Term {
+	if depth > 16 {
+		e.unsupported("errors.Is: chain deeper than 16")
+	}
+	if err.T == nil {
+		return e.T.Bool(target.T == nil)
+	}
+	if target.T != nil && types.Comparable(target.T) && types.Identical(err.T, target.T) {
+		eq := e.equals(fr, err.T, err.V, target.V)
+		if eq.IsTrue() {
+			return eq
+		}
+		if !eq.IsFalse() {
+			if e.Branch(eq) {
+				return e.T.True
+			}
+		}
+	}
+	if m := e.jsonMethod(err.T, "Is"); m != nil && m.Signature.Params().Len() == 1 {
+		r := e.callFunction(fr, m, []Value{err.V, target}, nil)
+		if t, ok := r.(*sym.Term); ok {
+			if t.IsTrue() || (!t.IsFalse() && e.Branch(t)) {
+				return e.T.True
+			}
+		}
+	}
+	if m := e.jsonMethod(err.T, "Unwrap"); m != nil && m.Signature.Params().Len() == 0 {
+		r := e.callFunction(fr, m, []Value{err.V}, nil)
+		switch r := r.(type) {
+		case Iface:
+			if r.T == nil {
+				return e.T.False
+			}
+			return e.errorsIs(fr, r, target, depth+1)
+		case []Value:
+			for _, x := range r {
+				if xi, ok := x.(Iface); ok && xi.T != nil {
+					if e.errorsIs(fr, xi, target, depth+1).IsTrue() {
+						return e.T.True
+					}
+				}
+			}
+		}
+	}
+	return e.T.False
+}
+
+func init() {
+	reg("errors.Is", func(e *Engine, fr *frame, fn *ssa.Function, a []Value) Value {
+		return e.errorsIs(fr, a[0].(Iface), a[1].(Iface), 0)
+	})
+}
